@@ -766,6 +766,10 @@ def c05_r5_lengths(repo, report, tier):
         one = val.get(f"sign:len({L})-1") == 0 or val.get(f"sign:len({L})-2") == -1
         two = val.get(f"sign:len({L})-2") == 0
         n += 1
+        # the predicate of a mate exists iff that mate's bound was given: the decision must have looked at it
+        if f"isnone:{L}[0]" not in val or (not one and f"isnone:{L}[1]" not in val):
+            bad.append({"term": e["slot"].key[:120], "problem": "the predicates are built without testing whether each bound was given (a missing bound must give no predicate for that mate)", "guard": {k: str(v) for k, v in val.items() if L in k}})
+            continue
         if one:
             exp = (f"{p}({L}[0])", f"{p}({L}[0])") if val.get(f"isnone:{L}[0]") is False else None
         elif two:
